@@ -26,6 +26,48 @@ def reading(x):
     return Fraction(d)
 
 
+FLOAT_LIMIT = Fraction(2 ** 1024 - 2 ** 970)     # float(x) is finite iff |x| < 2^1024 - 2^970 (round half even at the top)
+LARGEST_EXPONENT = 308                            # |x| >= 1e309: beyond every HomeKit number format
+
+
+def dec_reading(x):
+    """Decimal reading of a caller value (exact), or None when Decimal() rejects it or it is not finite.
+    Unlike reading() this never expands a huge exponent."""
+    try:
+        d = Decimal(x)
+    except Exception:  # noqa
+        return None
+    return d if d.is_finite() else None
+
+
+def clamp_dec(d, mn, mx):
+    """exact comparisons only (Decimal comparison does not round and does not depend on the context)"""
+    if mn is not None and Decimal(mn) > d:
+        d = Decimal(mn)
+    if mx is not None and Decimal(mx) < d:
+        d = Decimal(mx)
+    return d
+
+
+def extreme_metadata(*meta):
+    """a bound or step whose exponent no JSON number / double can carry: decimal's own exponent range may be hit"""
+    for m in meta:
+        if m is None:
+            continue
+        d = Decimal(m)
+        if d and not (-400 <= d.adjusted() <= 400 and d.as_tuple().exponent >= -1200):
+            return True
+    return False
+
+
+def stand_in(c):
+    """a value the property cannot tell from c, but small enough to expand: a non-zero c below 1e-5000 is replaced by
+    +-1e-5000 (every tie point of a grid built from non-extreme metadata is further from zero than that)"""
+    if c and c.adjusted() < -5000:
+        return Decimal((c.as_tuple().sign, (1,), -5000))
+    return c
+
+
 def ref_bool(s: str):
     """0/1 or None (= must be rejected)."""
     w = s.lower()
